@@ -1905,3 +1905,9 @@ def _slice_contains(ex, c):
     if not isinstance(seq, Seq) or not isinstance(x, BV):
         raise Unsupported("slice::contains on non-integer elements")
     return Bool(z3.Or([it.t == x.t for it in seq.items]) if seq.items else z3.BoolVal(False))
+
+
+@summary("Duration::from_millis", "std::time::Duration::from_millis", "core::time::Duration::from_millis")
+def _dur_from_millis(ex, c):
+    ms = c.args[0].t
+    return duration(z3.UDiv(ms, z3.BitVecVal(1000, 64)), z3.Extract(31, 0, z3.URem(ms, z3.BitVecVal(1000, 64)) * 1000000))
